@@ -139,6 +139,9 @@ class World:
         self.backend = backend
         if backend == "mem":
             self.broker = InMemoryMessageBroker()
+        elif backend == "rabbit":
+            from fakes import amqp as fa
+            self.broker, self.ch, self.srv = fa.mk_broker()
         else:
             from fakes import redis as fr
             self.fr = fr
@@ -162,6 +165,25 @@ class World:
         if self.backend == "mem":
             return mem_places(self.broker, queue)
         from types import SimpleNamespace
+        if self.backend == "rabbit":
+            import json
+            from repid.data._key import RoutingKey
+            out = {}
+            names = {queue: "waiting", queue + ":delayed": "delayed", queue + ":dead": "dead"}
+
+            def mk(m):
+                body = json.loads(m.body)
+                return SimpleNamespace(key=RoutingKey(topic=m.props.headers["topic"], queue=queue, id_=m.props.message_id),
+                                       payload=body["payload"], parameters=self.broker.PARAMETERS_CLASS.decode(body["parameters"]))
+            for qn, q in self.srv.queues.items():
+                if qn in names:
+                    for m in q.ready:
+                        out.setdefault(m.props.message_id, []).append((names[qn], mk(m)))
+            for ch in self.srv.channels:
+                for dtag, (q, m, ctag) in ch.unacked.items():
+                    if q.name in names:
+                        out.setdefault(m.props.message_id, []).append(("processing", mk(m)))
+            return out
         from repid.data._key import RoutingKey
         out = {}
         for i, pls in self.fr.redis_places(self.srv, queue).items():
